@@ -170,6 +170,20 @@ def one_case(ctx, index, rng: random.Random):
                          diff=["transform"], detail={"kind": kind, "point": (pts[i] * sc).tolist(), "got": t_sc[i], "expected": want[i], "scale": sc})
         except Exception as e:
             rec.fail(monitor="C15.transform", op=f"{kind}.transform", symptom=f"transform of very large / small points raised {type(e).__name__}", diff=["raised"], detail={"error": str(e)[:160]})
+    # already transformed values of the 1D classes are a plain 1D array: blocks of another shape are refused, not flattened
+    if mkind in ("radial", "azimuthal") and rng.random() < 0.3:
+        block = np.full(rng.choice([(3, 2), (2, 3), (2, 2, 2)]), 0.5)
+        h0 = klass(np.array([0.0, 1.0, 2.0]))
+        for how_, call_ in (("fill_n", lambda: h0.fill_n(block.copy(), transformed=True)),
+                            ("facade", lambda: (sp.radial if mkind == "radial" else sp.azimuthal)(block.copy(), bins=np.array([0.0, 1.0, 2.0]), transformed=True))):
+            try:
+                with warnings.catch_warnings():
+                    warnings.simplefilter("ignore")
+                    call_()
+                rec.fail(monitor="C15.transform", op=f"{kind}.{how_}(transformed=True)", symptom="already transformed input of the wrong dimensionality was flattened instead of refused", diff=["not_refused"],
+                         detail={"shape": block.shape, "total": float(h0.total)})
+            except Exception:
+                pass
     # wrong dimensionality refused
     try:
         bad = np.zeros((2, dim + 2))
@@ -243,6 +257,11 @@ def one_case(ctx, index, rng: random.Random):
             c2 = empty()
             c2.fill_n(arr, None if w is None else w.copy())
             finals["fill_n_again"] = c2
+            if a.ndim > 1:
+                # the batch given column-wise: the same points, one row per coordinate
+                c3 = empty()
+                c3.fill_n(np.ascontiguousarray(pts.T), None if w is None else w.copy(), columns=True)
+                finals["fill_n_columns"] = c3
             # transformed input
             tt = np.asarray(klass.transform(pts.copy()), dtype=float)
             d = empty()
